@@ -131,6 +131,8 @@ func (h *HelloElemVersionBitmap) Header() *HelloElemHeader {
 func (h *HelloElemVersionBitmap) Len() (n uint16) {
 	n = h.HelloElemHeader.Len()
 	n += uint16(len(h.Bitmaps) * 4)
+	// hello elements are padded to a multiple of 8 bytes; the padding is not part of the element's length field
+	n = (n + 7) / 8 * 8
 	return
 }
 
@@ -139,6 +141,7 @@ func (h *HelloElemVersionBitmap) MarshalBinary() (data []byte, err error) {
 	bytes := make([]byte, 0)
 	next := 0
 
+	h.Length = h.HelloElemHeader.Len() + uint16(len(h.Bitmaps)*4)
 	bytes, err = h.HelloElemHeader.MarshalBinary()
 	copy(data[next:], bytes)
 	next += len(bytes)
